@@ -394,7 +394,7 @@ struct Ctx {
     scratch: PathBuf,
     n_inst: u64,
     case: String,
-    history: Vec<(u64, String)>,  // accepted indexer ops with the block they belong to (for fresh replay)
+    history: Vec<(u64, String, bool)>, // accepted indexer ops, the block they belong to, whether a commit has covered them
     labels: BTreeMap<String, String>, // inscription id -> contract address
     known_addrs: BTreeSet<String>,
     known_hashes: Vec<String>,    // tx hashes returned to the indexer
@@ -675,11 +675,38 @@ fn exec_line(ctx: &mut Ctx, line: &str, out: &mut Out) {
             let st = digest(&ctx.main.state());
             out.line("reopen", &format!("ok | {}", st));
             ctx.height = latest_height(&ctx.main);
-            let h = ctx.height;
-            replace_twin_by_fresh_replay_to_height(ctx, h, out);
+            replace_twin_by_fresh_replay_of(ctx, None, out);
             compare_observations(ctx, out, "after reopen (clear)");
         }
         "read" => exec_read(ctx, &f, out),
+        "golden" => {
+            // C02: the observation of this fixed history is pinned for the protocol version (wall-clock fields removed)
+            let obs = observation(&ctx.main, ctx);
+            let text = serde_json::to_string(&canonical(&obs)).unwrap();
+            let d = format!("{:016x}-{}", fnv(text.as_bytes()), text.len());
+            let dir = std::env::var("VERIF_GOLDEN").unwrap_or_else(|_| "/verif/golden".into());
+            let file = format!("{}/{}.digest", dir, ctx.case);
+            if std::env::var("VERIF_WRITE_GOLDEN").is_ok() {
+                let _ = std::fs::create_dir_all(&dir);
+                std::fs::write(&file, format!("{}\n", d)).unwrap();
+                std::fs::write(format!("{}/{}.json", dir, ctx.case), &text).unwrap();
+            } else {
+                match std::fs::read_to_string(&file) {
+                    Ok(want) if want.trim() == d => {}
+                    Ok(want) => {
+                        // name the first difference against the pinned observation if it is available
+                        let detail = std::fs::read_to_string(format!("{}/{}.json", dir, ctx.case))
+                            .ok()
+                            .and_then(|j| serde_json::from_str::<Value>(&j).ok())
+                            .and_then(|old| first_difference(&old, &canonical(&obs), "obs"))
+                            .unwrap_or_default();
+                        out.oracle_fail(&case, "golden", &format!("observation digest {} differs from the pinned {} for this protocol version: {}", d, want.trim(), detail));
+                    }
+                    Err(_) => out.oracle_fail(&case, "golden", &format!("no pinned digest {}", file)),
+                }
+            }
+            out.count("golden");
+        }
         "bad" => exec_bad(ctx, &f, out),
         _ => {
             let Some((method, params)) = params_for(ctx, &op, &f) else {
@@ -731,10 +758,15 @@ fn exec_line(ctx: &mut Ctx, line: &str, out: &mut Out) {
                 check_prediction(ctx, &op, &f, &resp, prediction, out);
                 check_probe(ctx, &op, &f, &resp, out);
                 let b = block_of(ctx);
-                ctx.history.push((b, line.to_string()));
+                ctx.history.push((b, line.to_string(), false));
                 // the twin sees the same indexer call, except commit/clear, which follow its own schedule
                 match op.as_str() {
-                    "commit" | "clear" => {}
+                    "commit" => {
+                        for h in ctx.history.iter_mut() {
+                            h.2 = true;
+                        }
+                    }
+                    "clear" => {}
                     "reorg" => {
                         let n: u64 = f.get("n").and_then(|s| s.parse().ok()).unwrap_or(0);
                         replace_twin_by_fresh_replay(ctx, n, out);
@@ -769,8 +801,7 @@ fn exec_line(ctx: &mut Ctx, line: &str, out: &mut Out) {
                 if op == "clear" {
                     // everything uncommitted is gone on the main instance: the twin is brought to the same point
                     ctx.height = latest_height(&ctx.main);
-                    let h = ctx.height;
-                    replace_twin_by_fresh_replay_to_height(ctx, h, out);
+                    replace_twin_by_fresh_replay_of(ctx, None, out);
                     compare_observations(ctx, out, "after clearCaches");
                 }
             }
@@ -1076,23 +1107,26 @@ fn compare_observations(ctx: &mut Ctx, out: &mut Out, when: &str) {
 }
 
 fn replace_twin_by_fresh_replay(ctx: &mut Ctx, n: u64, out: &mut Out) {
-    replace_twin_by_fresh_replay_to_height(ctx, Some(n), out)
+    replace_twin_by_fresh_replay_of(ctx, Some(n), out)
 }
 
-/// C01 / C03: a fresh instance fed only the accepted indexer calls of blocks ≤ n
-fn replace_twin_by_fresh_replay_to_height(ctx: &mut Ctx, n: Option<u64>, out: &mut Out) {
+/// C01 / C03: the twin becomes a fresh instance fed only
+///   `Some(n)`: the accepted indexer calls of blocks <= n (an accepted reorg to n; it ends with a commit),
+///   `None`:    the calls covered by a commit (clearCaches / restart: exactly the state of the last commit).
+fn replace_twin_by_fresh_replay_of(ctx: &mut Ctx, n: Option<u64>, out: &mut Out) {
     ctx.twin.close();
     let _ = std::fs::remove_dir_all(&ctx.twin.dir);
     let mut k = ctx.n_inst;
     let fresh = new_inst(&ctx.scratch, &mut k, &ctx.rt);
     ctx.n_inst = k;
-    let keep: Vec<(u64, String)> = match n {
-        None => Vec::new(),
-        Some(n) => ctx.history.iter().filter(|(b, l)| *b <= n && !l.starts_with("commit") && !l.starts_with("clear") && !l.starts_with("reorg")).cloned().collect(),
+    let skip = |l: &str| l.starts_with("commit") || l.starts_with("clear") || l.starts_with("reorg");
+    let keep: Vec<(u64, String, bool)> = match n {
+        None => ctx.history.iter().filter(|h| h.2 && !skip(&h.1)).cloned().collect(),
+        Some(n) => ctx.history.iter().filter(|h| h.0 <= n && !skip(&h.1)).cloned().collect(),
     };
     // a mine that crosses n is cut at n
-    let mut kept: Vec<(u64, String)> = Vec::new();
-    for (b, l) in &keep {
+    let mut kept: Vec<(u64, String, bool)> = Vec::new();
+    for (b, l, _) in &keep {
         let op = l.split(' ').next().unwrap_or("");
         let f = kv(l);
         if op == "mine" {
@@ -1102,10 +1136,10 @@ fn replace_twin_by_fresh_replay_to_height(ctx: &mut Ctx, n: Option<u64>, out: &m
             let cnt = if let Some(n) = n { if last > n { n + 1 - b } else { cnt } } else { cnt };
             let ts = f.get("ts").and_then(|s| s.parse::<u64>().ok()).unwrap_or(0);
             let _ = fresh.call("brc20_mine", json!([cnt, ts]));
-            kept.push((*b, format!("mine count={} ts={}", cnt, ts))); // what the shortened history contains
+            kept.push((*b, format!("mine count={} ts={}", cnt, ts), true)); // what the shortened history contains
             continue;
         }
-        kept.push((*b, l.clone()));
+        kept.push((*b, l.clone(), true));
         if let Some((m, p)) = params_for(ctx, op, &f) {
             let r = fresh.call(&m, p);
             if err_class(&r) != "ok" {
